@@ -29,6 +29,8 @@ uint64_t vp_local_hash(int id);
 void vp_set_state_fn(uint64_t (*fn)(void));
 extern int vp_sched_active;
 extern int vp_sync_points;
+extern int vp_free_yield_cost;
+extern int vp_blocked_switch_cost;
 extern size_t vp_stack_size;                                 /* coroutine stack size (<= 1 MiB), default 256 KiB */
 
 /* optional: address-independent form of an 8-byte value a coroutine read (pointers) */
